@@ -43,8 +43,34 @@ pub const N: usize = 5;
 /// The i-th pushed entry (bottom = 0) covers these bytes of the text.
 pub const ENTRY: [(usize, usize); 4] = [(0, 1), (1, 3), (3, 4), (4, 5)];
 
+/// Layout in force: `ENTRY`, or (after `sym_layout()`) arbitrary spans of 0..=2 bytes anywhere in
+/// the text, drawn by `setup` — empty entries, overlapping entries and entries ending at the end of
+/// the text included.
+static mut LAY: [(usize, usize); 4] = ENTRY;
+static mut SYM: bool = false;
+pub fn sym_layout() {
+    unsafe { SYM = true }
+}
+fn lay(i: usize) -> (usize, usize) {
+    unsafe { LAY[i] }
+}
+fn draw_layout<const D: usize>() {
+    if unsafe { SYM } {
+        let mut i = 0;
+        while i < D {
+            let a = nd::usize();
+            let l = nd::usize();
+            nd::assume(l <= 2 && a <= N && a + l <= N);
+            unsafe { LAY[i] = (a, a + l) }
+            i += 1;
+        }
+    } else {
+        unsafe { LAY = ENTRY }
+    }
+}
+
 fn entry_text(b: &[u8], i: usize) -> &[u8] {
-    &b[ENTRY[i].0..ENTRY[i].1]
+    &b[lay(i).0..lay(i).1]
 }
 
 /// Reference: match entries `idx[0], idx[1], …` (in that order) at `p`.
@@ -68,10 +94,11 @@ struct Setup<'i> {
 }
 fn setup<'i, const D: usize>(buf: &'i [u8; N]) -> Setup<'i> {
     let s = nd::as_str(buf);
+    draw_layout::<D>();
     let mut stack = Stack::new();
     let mut i = 0;
     while i < D {
-        stack.push(Span::new(s, ENTRY[i].0, ENTRY[i].1).unwrap());
+        stack.push(Span::new(s, lay(i).0, lay(i).1).unwrap());
         i += 1;
     }
     let p = nd::usize();
@@ -88,7 +115,7 @@ fn entries_unchanged<const D: usize>(s: &str, stack: &Stack<Span<'_>>, upto: usi
     while i < D {
         if i < upto {
             let e = &stack[i..i + 1][0];
-            if e.start() != ENTRY[i].0 || e.end() != ENTRY[i].1 {
+            if e.start() != lay(i).0 || e.end() != lay(i).1 {
                 ok = false;
             }
         }
@@ -106,7 +133,7 @@ fn builtin<const D: usize>(which: u8) {
     let mut v_stack: Stack<Span<'_>> = Stack::new();
     let mut i = 0;
     while i < D {
-        v_stack.push(Span::new(u.s, ENTRY[i].0, ENTRY[i].1).unwrap());
+        v_stack.push(Span::new(u.s, lay(i).0, lay(i).1).unwrap());
         i += 1;
     }
     let inp = Position::new(u.s, u.p).unwrap();
@@ -147,6 +174,7 @@ fn builtin<const D: usize>(which: u8) {
         _ => ref_concat(b, u.p, &all_top_down),
     };
     cover!(D == 0 || which == 2 || (exp.is_some() && exp.unwrap() > u.p), "matched and consumed");
+    cover!(!unsafe { SYM } || D == 0 || (exp == Some(N) && u.p == N), "symbolic layout: matched at the very end of the text (empty entries only)");
     cover!(exp.is_none() || which >= 2, "failed (n/a for DROP/PEEK_ALL/POP_ALL when they cannot fail)");
     assert!(got_c == exp);
     assert!(got_p == exp);
@@ -165,7 +193,7 @@ fn builtin<const D: usize>(which: u8) {
     // the span exposed by PEEK / PEEK_ALL / POP_ALL is the text consumed; POP exposes the popped entry
     if let (Some(sp), Some(e)) = (span, exp) {
         if which == 1 {
-            assert!(sp.start() == ENTRY[D - 1].0 && sp.end() == ENTRY[D - 1].1);
+            assert!(sp.start() == lay(D - 1).0 && sp.end() == lay(D - 1).1);
         } else {
             assert!(sp.start() == u.p && sp.end() == e);
         }
@@ -308,6 +336,16 @@ harnesses! {
     #[kani::unwind(7)] fn c06_slice2_d2_a1() [T0] : "Q|PEEK[1..b], b in -3..=3, depth 2" { s2_quick!(1) }
     #[kani::unwind(7)] fn c06_slice2_d2_a2() [T0] : "Q|PEEK[2..b], b in -3..=3, depth 2" { s2_quick!(2) }
     #[kani::unwind(7)] fn c06_slice2_d2_a3() [T0] : "Q|PEEK[3..b], b in -3..=3, depth 2 (out of range above)" { s2_quick!(3) }
+
+    #[kani::unwind(7)] fn c06_e_peek_d2() [T0] : "Q|PEEK, depth 2, entries = arbitrary spans of 0..=2 bytes (empty entries, end of text)" { sym_layout(); builtin::<2>(0) }
+    #[kani::unwind(7)] fn c06_e_pop_d2() [T0] : "Q|POP, depth 2, arbitrary entries of 0..=2 bytes" { sym_layout(); builtin::<2>(1) }
+    #[kani::unwind(7)] fn c06_e_peek_all_d3() [T0] : "Q|PEEK_ALL, depth 3, arbitrary entries of 0..=2 bytes" { sym_layout(); builtin::<3>(3) }
+    #[kani::unwind(7)] fn c06_e_pop_all_d3() [T0] : "Q|POP_ALL, depth 3, arbitrary entries of 0..=2 bytes" { sym_layout(); builtin::<3>(4) }
+    #[kani::unwind(7)] fn c06_e_slice2_d2() [T0] : "Q|PEEK[0..b], b in -3..=3, depth 2, arbitrary entries of 0..=2 bytes" { sym_layout(); s2_quick!(0) }
+    #[kani::unwind(7)] fn c06_e_slice1_d3() [T0] : "T|PEEK[a..], a in -3..=3, depth 3, arbitrary entries of 0..=2 bytes" { sym_layout(); s1_row!(3; -3, -2, -1, 0, 1, 2, 3) }
+    #[kani::unwind(7)] fn c06_e_peek_all_d4() [T0] : "T|PEEK_ALL, depth 4, arbitrary entries of 0..=2 bytes" { sym_layout(); builtin::<4>(3) }
+    #[kani::unwind(7)] fn c06_e_pop_all_d4() [T0] : "T|POP_ALL, depth 4, arbitrary entries of 0..=2 bytes" { sym_layout(); builtin::<4>(4) }
+    #[kani::unwind(7)] fn c06_e_slice2_d4() [T0] : "T|PEEK[-4..b], b in -6..=6, depth 4, arbitrary entries of 0..=2 bytes" { sym_layout(); s2_full!(-4, 4) }
 
     #[kani::unwind(6)] fn c06_push_str() [T0] : "Q|Push<Str> pushes exactly the matched text; 4 bytes over {a,b,' ',x}, all positions" { push_span(0) }
     #[kani::unwind(6)] fn c06_push_seq_skip() [T0] : "Q|Push<Seq2 with skip> pushed span includes the implicit skip inside" { push_span(1) }
